@@ -29,9 +29,42 @@ RX = {
 LEMMA_OPS = ['ctor', 'push', 'pop', 'unblock_push', 'size', 'empty']
 UNITS = [lq(n, RX[n], **({'replay': REPLAY} if n == 'push' else {})) for n in ('ctor', 'push', 'pop', 'unblock_push', 'dtor', 'size', 'empty')] + [
     # history lemma over the contracts: every call is replaced by its contract, unbounded loop with invariant (DESIGN 3.6)
-    dict(name='lq_lemma', kind='lemma', driver='c10_lqueue.cpp', roots=[RX[n] for n in LEMMA_OPS], names={'lq_' + n: RX[n] for n in LEMMA_OPS}, types=TYPES, globals=GLOBALS,
-         boundary=BOUNDARY, lib=LIBS, spec=['C10/lq_spec.h', 'C10/h_lemma.c'], harness='h_lq_lemma', enforce='lq_lemma', replace=['lq_' + n for n in LEMMA_OPS],
-         loop_contracts=True, defines=DEFS + ['CV_HAS_lq_lemma 1'], timeout=900, object_bits=10,
+    # (the six members are BOUNDARY here - only their prototypes + contracts are needed; the roots are the driver's extern "C" wrappers that call them)
+    dict(name='lq_lemma', kind='lemma', driver='c10_lqueue.cpp', roots=['^drv_lq_(%s)$' % '|'.join(LEMMA_OPS)], names={'lq_' + n: RX[n] for n in LEMMA_OPS}, types=TYPES, globals=GLOBALS,
+         boundary=BOUNDARY + [RX[n] for n in LEMMA_OPS], lib=LIBS, spec=['C10/lq_spec.h', 'C10/h_lemma.c'], harness='h_lq_lemma', enforce='lq_lemma', replace=['lq_' + n for n in LEMMA_OPS],
+         loop_contracts=True, defines=DEFS + ['CV_HAS_lq_lemma 1'], timeout=600, object_bits=10,
          under_contract=['history lemma over the contracts of cocls::limited_queue<int> (ctor, push, pop, unblock_push, size, empty)']),
+    # conservation = linear arithmetic over the counting invariant of the history lemma (SMT back end: 64-bit sums of 5 terms are hopeless for SAT)
+    dict(name='lq_conservation', kind='lemma', driver='c10_lqueue.cpp', roots=[RX['size']], names={}, types=TYPES, globals=GLOBALS, boundary=BOUNDARY, lib=LIBS,
+         spec=['C10/lq_spec.h', 'C10/h_lemma.c'], harness='h_lq_conservation', defines=DEFS + ['CV_LQ_CONSERVATION 1'], solver_flag='--z3', solver='smt2 (z3 4.8) - solver-specific',
+         under_contract=['arithmetic consequence of the counting invariant of lq_lemma']),
 ]
-META = dict(level='proof', level_text='TODO', level_note='TODO', technique='TODO', trusted_base=[], assumptions=[], explanation='')
+META = dict(
+    level='proof',
+    level_text=('Every public member of cocls::limited_queue<int> (constructor, push, pop incl. the future-constructor lambda, unblock_push, inherited size/empty, destructor) is checked on the C translation '
+                'of the real header against a contract taken from the property statement, for EVERY abstract state (any limit, any number of queued items, waiting pops and blocked producers, any values and '
+                'promise identities): push completes immediately (ready future; item handed to the oldest waiting pop or appended to the item sequence) while fewer than `limit` items are waiting, otherwise the '
+                'returned future is pending and the item is held ONLY by the blocked-producer sequence, behind the earlier blocked pushes; pop delivers exactly the head item and, if a producer is blocked, moves '
+                'exactly the oldest blocked item to the back of the item sequence and completes exactly that push after unlocking; unblock_push removes exactly the oldest blocked push together with its item and '
+                'fails it with exactly e. A history lemma over these contracts (unbounded loop, two tagged pushes, event counters, symbolic limit >= 1) proves: every pushed item is in exactly one place '
+                '(not pushed / item sequence / blocked / delivered / handed over / withdrawn), conservation pushes == handed + delivered + withdrawn + |Q| + |B|, delivery order == push order also across blocking, '
+                'blocked pushes complete in arrival order, one per pop, and a push future is pending exactly while its item is blocked. '
+                'ON THE UNCHANGED TREE limited_queue::push FAILS three postconditions (genuine defect, reproduced natively by replay/c10_dup.cpp; candidate repair specs/C10/fix_push.diff): the item is emplaced into the '
+                'item sequence AND stored in _blocked (delivered twice), and the push blocks one item too early. With the repair every obligation is discharged.'),
+    level_note=('Same reduction as C09: sequential contracts per critical section + machine-checked lock discipline (containers only while the mutex is held, parked promises resolved / coroutines resumed after unlock, '
+                'one critical section per operation) stand for "every interleaving"; no real producer/consumer threads are run. Limits are symbolic (any value in the per-function contracts, >= 1 in the lemma), '
+                'not 1..4. promise/future are abstract (resolution log); the readiness of the future returned by push is a fact about the real future object built by the real translated constructors. '
+                'unblock_pop is not reachable through limited_queue (protected base, no using-declaration) and is therefore not part of the histories. Only T=int with the default policies is instantiated. '
+                'The conservation sum is derived from the lockstep counting invariant by an arithmetic lemma that needs an SMT back end (z3) - solver-specific. The history lemma is a statement about the contracts: '
+                'it holds for the repaired code, for the unchanged code the push contract itself is violated.'),
+    technique=('CBMC 6.11 code contracts enforced per function with goto-instrument --dfcc on the C translation (ir2c) of the clang IR of the real queue.h; std containers and promise operations as assumed-contract '
+               'boundary models with a ghost-index element view; history lemma = loop contract over replaced contracts; z3 for pure linear arithmetic; native replay against the real headers'),
+    trusted_base=['assumed contract: std::queue<int>, std::queue<promise<int>>, std::queue<pair<int,promise<void>>> are unbounded FIFOs with move-in / destroy-on-pop element semantics (lib/model_awq_containers.c)',
+                  'abstract boundary: cocls::promise<T> operations and suspend_point<bool>::~suspend_point as ghost-logging stubs (lib/model_awq_promise.c); future.h internals not translated',
+                  'primitive: std::mutex via pthread_mutex_lock/unlock with lock-discipline obligations (lib/model_mutex.c)',
+                  'rely/guarantee reduction of interleavings to sequential histories of critical sections (argued, DESIGN 3.5)'],
+    assumptions=['ghost positions / event counters are mathematical integers (never wrap: fewer than 2^62 operations)',
+                 'std::queue operations do not throw (bad_alloc assumed away); pthread_mutex_lock never fails',
+                 'history lemma: limit >= 1; starts at the constructor and continues from an arbitrary state satisfying the invariant; claims about a tagged item are made for the aligned valuation of the ghost positions',
+                 'the object invariant "a producer is blocked only while the queue is full" (B non-empty => |Q| >= limit) is part of every precondition; it is established by the constructor and re-proved by every operation'],
+    explanation='see level_text')
